@@ -258,6 +258,25 @@ pub fn closed_world(sorenson: bool, trs: &[u8], contents: usize) -> World {
     World { opts: if sorenson { 1 } else { 0 }, ops }
 }
 
+/// Size-change world: intra pictures of several shapes (including transposes with identical plane
+/// sizes), predicted pictures of each shape (valid only over a reference of the same shape).
+pub fn size_world() -> World {
+    let sizes: [(u16, u16); 5] = [(16, 32), (32, 16), (16, 16), (16, 48), (48, 16)];
+    let mut ops = vec![];
+    for (si, &(w, h)) in sizes.iter().enumerate() {
+        let n = mb_grid(w, h).0 * mb_grid(w, h).1;
+        for c in 0..2usize {
+            ops.push(GOp::pic(&format!("I({w}x{h},{c})"), Pic { hdr: shdr(w, h, 0, si as u8, 5, 0), mbs: (0..n).map(|_| flat_mb(c)).collect() }));
+        }
+        let mut mbs: Vec<Mb> = (0..n).map(|_| Mb::NotCoded).collect();
+        mbs[0] = flat_mb(2);
+        ops.push(GOp::pic(&format!("P({w}x{h})"), Pic { hdr: shdr(w, h, 1, 10 + si as u8, 5, 0), mbs: mbs.clone() }));
+        ops.push(GOp::pic(&format!("D({w}x{h})"), Pic { hdr: shdr(w, h, 2, 20 + si as u8, 5, 0), mbs }));
+    }
+    ops.push(GOp::Cleanup);
+    World { opts: 1, ops }
+}
+
 pub fn bad_inputs(sorenson: bool) -> Vec<GOp> {
     let mut v = vec![];
     if sorenson {
@@ -341,6 +360,7 @@ pub fn run(tier: Tier) -> Report {
     };
     do_world("sorenson-closed", &closed_world(true, &TRS, 3), None, false);
     do_world("standard-closed", &closed_world(false, &TRS, 3), None, false);
+    do_world("sorenson-size-changes", &size_world(), if tier.thorough() { None } else { Some(4) }, false);
     if tier.thorough() {
         do_world("sorenson-closed-5tr", &closed_world(true, &[0, 1, 2, 254, 255], 3), None, false);
         do_world("standard-closed-5tr", &closed_world(false, &[0, 1, 2, 254, 255], 3), None, false);
@@ -352,7 +372,7 @@ pub fn run(tier: Tier) -> Report {
     // the motion graph is depth-bounded by construction; the closed graphs reach a fixpoint
     *rep.exhaustive.lock().unwrap() = true;
     rep.set_rule(
-        "breadth-first search over operation histories on one H263State, de-duplicated on the decoder's entire state (hooked scalars + hash of every stored picture); closed graphs (flat contents, 32x16): every operation of the alphabet {I, Pa, Pb, Da, Db} x TR {0,1,255} x 3 contents + rejected inputs + cleanup from every reachable state, to a fixpoint; motion graph: depth-bounded with the depth in the key; every transition compared with a two-slot model (last, reference) and the reference decoder; non-trivial = states in which the most recent picture is not the reference",
+        "breadth-first search over operation histories on one H263State, de-duplicated on the decoder's entire state (hooked scalars + hash of every stored picture); closed graphs (flat contents, 32x16): every operation of the alphabet {I, Pa, Pb, Da, Db} x TR {0,1,255} x 3 contents + rejected inputs + cleanup from every reachable state, to a fixpoint; motion graph: depth-bounded with the depth in the key; size-change graph: intra/predicted/disposable pictures of five shapes incl. transposes (prediction across shapes must be rejected); every transition compared with a two-slot model (last, reference) and the reference decoder; non-trivial = states in which the most recent picture is not the reference",
     );
     rep.assume("state key read through the cfg-gated hook (exhaustive destructuring of H263State)");
     let _ = total_states;
